@@ -290,6 +290,29 @@ func Run(args []string) int {
 			if strings.Join(wantSplit, ",") != strings.Join(gotSplit, ",") {
 				add("data-differs", fmt.Sprintf("split arguments %v became %v", wantSplit, gotSplit), text)
 			}
+			// the same call written with an alias and a second include in front: the data
+			// names the callable and the file that declares it, with the same arguments
+			os.WriteFile(path.Join(dir, "types.mro"), []byte("filetype zzextra;\n"), 0644)
+			text3 := "@include \"types.mro\"\n" + strings.Replace(text, "call S(", "call S as ALIAS(", 1)
+			if inv3, err := core.InvocationDataFromSource([]byte(text3), []string{dir}); err != nil {
+				add("call-to-data-fails", "aliased call with two includes: "+err.Error(), text3)
+			} else {
+				if inv3.Call != "S" || inv3.Include != "s.mro" {
+					add("data-differs", fmt.Sprintf("aliased call with two includes: call %q include %q, expected S / s.mro", inv3.Call, inv3.Include), text3)
+				}
+				for _, name := range r.Names {
+					a, _ := canonJSON(inv2.Args[name])
+					b, _ := canonJSON(inv3.Args[name])
+					if a != b {
+						add("data-differs", fmt.Sprintf("aliased call: argument %s is %s, unaliased %s", name, string(inv3.Args[name]), string(inv2.Args[name])), text3)
+					}
+				}
+				if t4, err := inv3.BuildCallSource([]string{dir}); err != nil {
+					add("data-to-call-fails", "from the aliased call: "+err.Error(), text3)
+				} else if t4 != text {
+					add("call-differs", "the call rebuilt from the aliased form differs: "+t4, text3)
+				}
+			}
 			// and again
 			text2, err := inv2.BuildCallSource([]string{dir})
 			if err != nil {
